@@ -250,7 +250,8 @@ impl Gen {
             "rename" => {
                 let (name, nk) = self.name(85, hostile_p / 2);
                 let (name2, nk2) = self.name(40, hostile_p);
-                let fl = *self.rng.pick(&[0u32, 0, 0, 1, 2, 3]);
+                // beside the three legal words: both-at-once and words with bits the host does not know (EINVAL on the host)
+                let fl = *self.rng.pick(&[0u32, 0, 0, 1, 2, 3, 8, 9, 0x4000_0000]);
                 json!({"op": "rename", "p": self.pick_node(&["dir"]), "name": name, "nk": nk, "p2": self.pick_node(&["dir"]), "name2": name2, "nk2": nk2, "flags": fl})
             }
             "open" => {
@@ -306,7 +307,9 @@ impl Gen {
                                 return json!({"op": "getattr", "n": n, "h": -1});
                             }
                         }
-                        json!({"op": "write", "n": n, "h": h, "off": off, "data": self.data(len), "flags": fl})
+                        // a third of the WRITEs are write-back flushes of the client's page cache (FUSE_WRITE_CACHE)
+                        let cache = self.rng.chance(1, 3);
+                        json!({"op": "write", "n": n, "h": h, "off": off, "data": self.data(len), "flags": fl, "cache": cache})
                     }
                     "fallocate" => {
                         let m = *self.rng.pick(&[0i32, 0, libc::FALLOC_FL_KEEP_SIZE, libc::FALLOC_FL_PUNCH_HOLE | libc::FALLOC_FL_KEEP_SIZE, libc::FALLOC_FL_PUNCH_HOLE,
